@@ -65,12 +65,12 @@ CmdOk(c) == IsOp(c) \/ PushHeader(Len(c.d)).ok
 CmdBytes(c) == IF IsOp(c) THEN <<c.op>> ELSE PushHeader(Len(c.d)).bytes \o c.d
 
 \* [ok, bytes]
-RawSerialize(cmds) ==
+RawSerializeScript(cmds) ==
   IF \E i \in 1..Len(cmds) : ~CmdOk(cmds[i]) THEN [ok |-> FALSE, bytes |-> <<>>]
   ELSE [ok |-> TRUE, bytes |-> Flatten([i \in 1..Len(cmds) |-> CmdBytes(cmds[i])])]
 
-Serialize(cmds) ==
-  LET r == RawSerialize(cmds)
+SerializeScript(cmds) ==
+  LET r == RawSerializeScript(cmds)
   IN IF ~r.ok THEN r
      ELSE [ok |-> TRUE, bytes |-> EncVarintNat(Len(r.bytes)) \o r.bytes]
 
